@@ -239,6 +239,51 @@ Theorem C19_envelope_paths_agree :
 Proof. exact encode_step_paths_agree. Qed.
 Print Assumptions C19_envelope_paths_agree.
 
+(* serialize_obj tries by value, then -- whatever the first attempt raised -- by reference,
+   and only then gives up: for every callable and whatever dill does, transport ends in an
+   error ONLY IF BOTH attempts fail (and the error is SerializationError); if either
+   succeeds, the task decodes to the given arguments and a callable that behaves like the
+   original.  Trusted of dill (hypotheses): what either attempt writes, loads reads back as a
+   callable observationally equal to the original. *)
+Theorem C19_envelope_by_value_or_reference :
+  forall (func blob wire res : Type)
+         (dumps_val dumps_ref : func -> option blob) (loads : blob -> option func)
+         (ser_bson : envelope blob -> wire) (deser_bson : wire -> option (envelope blob))
+         (call : func -> list atom -> kwargs -> res),
+    (forall f b, dumps_val f = Some b -> exists f', loads b = Some f' /\ obs_eq func res call f f') ->
+    (forall f b, dumps_ref f = Some b -> exists f', loads b = Some f' /\ obs_eq func res call f f') ->
+    (forall e, deser_bson (ser_bson e) = Some e) ->
+    forall f args kw,
+      match transport_s func blob wire dumps_val dumps_ref loads ser_bson deser_bson true f args kw with
+      | inl e => e = SerError /\ dumps_val f = None /\ dumps_ref f = None
+      | inr (f', a', k') => a' = args /\ k' = Some (kw_or_empty kw) /\ obs_eq func res call f f'
+      end.
+Proof. exact transport_s_spec. Qed.
+Print Assumptions C19_envelope_by_value_or_reference.
+
+Theorem C19_envelope_encodes_whenever_possible :
+  forall (func blob wire res : Type)
+         (dumps_val dumps_ref : func -> option blob) (loads : blob -> option func)
+         (ser_bson : envelope blob -> wire) (deser_bson : wire -> option (envelope blob))
+         (call : func -> list atom -> kwargs -> res),
+    (forall f b, dumps_val f = Some b -> exists f', loads b = Some f' /\ obs_eq func res call f f') ->
+    (forall f b, dumps_ref f = Some b -> exists f', loads b = Some f' /\ obs_eq func res call f f') ->
+    (forall e, deser_bson (ser_bson e) = Some e) ->
+    forall f args kw,
+      (dumps_val f <> None \/ dumps_ref f <> None) ->
+      exists f', transport_s func blob wire dumps_val dumps_ref loads ser_bson deser_bson true f args kw
+                 = inr (f', args, Some (kw_or_empty kw)) /\ obs_eq func res call f f'.
+Proof. exact transport_s_succeeds. Qed.
+Print Assumptions C19_envelope_encodes_whenever_possible.
+
+(* serialize_obj itself: an error iff both attempts fail *)
+Theorem C19_serialize_error_iff :
+  forall (func blob : Type) (dumps_val dumps_ref : func -> option blob) (f : func),
+    (exists e, serialize_obj func blob dumps_val dumps_ref f = inl e)
+    <-> dumps_val f = None /\ dumps_ref f = None.
+Proof. exact serialize_error_iff. Qed.
+Print Assumptions C19_serialize_error_iff.
+
 (* something that is not callable is refused *)
 Theorem C19_envelope_not_callable :
   forall (func blob wire : Type) so dobj sb db fn args kw,
